@@ -60,6 +60,31 @@ var c04DestTypes = map[string]reflect.Type{
 	"slice_int": reflect.TypeOf([]int(nil)), "map_string_int": reflect.TypeOf(map[string]int(nil)),
 	"plain": reflect.TypeOf(gen.Plain{}), "node": reflect.TypeOf((*gen.Node)(nil)), "bytes": reflect.TypeOf([]byte(nil)),
 	"time": reflect.TypeOf(time.Time{}), "array_int": reflect.TypeOf([4]int{}), "slice_string": reflect.TypeOf([]string(nil)),
+	"map_iface_int": reflect.TypeOf(map[interface{}]int(nil)), "map_iface_iface": reflect.TypeOf(map[interface{}]interface{}(nil)),
+}
+
+// C04Keyed is registered by name; held by value it cannot be a map key (it has a slice)
+type C04Keyed struct {
+	Name string   `hprose:"name"`
+	Tags []string `hprose:"tags"`
+}
+
+func init() { hio.RegisterName("C04Keyed", (*C04Keyed)(nil)) }
+
+// a destination name ending in "+opts" is decoded with the non-default decoder settings
+func c04Dest(name string) (reflect.Type, bool) {
+	if strings.HasSuffix(name, "+opts") {
+		return c04DestTypes[strings.TrimSuffix(name, "+opts")], true
+	}
+	return c04DestTypes[name], false
+}
+
+func c04Opts(dec *hio.Decoder) {
+	dec.ListType = hio.ListTypeSlice
+	dec.StructType = hio.StructTypeValue
+	dec.LongType = hio.LongTypeBigInt
+	dec.RealType = hio.RealTypeFloat32
+	dec.MapType = hio.MapTypeSIMap
 }
 
 func c04Exec(in c04Input) (outcome, detail string) {
@@ -85,7 +110,8 @@ func c04Exec(in c04Input) (outcome, detail string) {
 	}()
 	switch in.Entry {
 	case "unmarshal", "reader":
-		out := reflect.New(c04DestTypes[in.Dest])
+		dt, opts := c04Dest(in.Dest)
+		out := reflect.New(dt)
 		var dec *hio.Decoder
 		if in.Entry == "reader" {
 			dec = hio.NewDecoderFromReader(&chunkReader{b: b, plan: []int{1, 2, 3, 1, 2, 3, 1, 2, 3, 5, 7}})
@@ -93,6 +119,9 @@ func c04Exec(in c04Input) (outcome, detail string) {
 			dec = hio.NewDecoder(b)
 		}
 		dec.Simple(in.Mode == "simple")
+		if opts {
+			c04Opts(dec)
+		}
 		dec.Decode(out.Interface())
 		if dec.Error != nil {
 			return "error", dec.Error.Error()
@@ -113,7 +142,8 @@ func c04Exec(in c04Input) (outcome, detail string) {
 		return "ok", ""
 	case "client":
 		cc := core.NewClientContext()
-		cc.Init(core.NewClient("verif://x"), c04DestTypes[in.Dest])
+		dt, _ := c04Dest(in.Dest)
+		cc.Init(core.NewClient("verif://x"), dt)
 		_, err := core.NewClientCodec().Decode(b, cc)
 		if err != nil {
 			return "error", err.Error()
@@ -252,7 +282,10 @@ func c04Mutations(b []byte, rng *tr.Rng, thorough bool) map[string][][]byte {
 
 func c04Special() map[string][][]byte {
 	m := map[string][][]byte{}
-	m["unhashable-key"] = [][]byte{[]byte("m1{a{}1}"), []byte("m1{m{}1}"), []byte("m1{a1{1}ux}"), []byte("m2{a{}1a{}2}")}
+	m["unhashable-key"] = [][]byte{[]byte("m1{a{}1}"), []byte("m1{m{}1}"), []byte("m1{a1{1}ux}"), []byte("m2{a{}1a{}2}"),
+		[]byte("m1{a2{12}3}"), []byte("m1{b2\"ab\"1}"), []byte("a2{b2\"ab\"m1{r1;1}}"), []byte("m2{ua1a2{uaub}2}"),
+		[]byte("m1{c8\"C04Keyed\"2{s4\"name\"s4\"tags\"}o0{s2\"ab\"a1{s2\"cd\"}}1}"),
+		[]byte("a2{c8\"C04Keyed\"2{s4\"name\"s4\"tags\"}o0{s2\"ab\"a{}}m1{r1;1}}"), []byte("m1{m1{ua1}1}"), []byte("m1{d1.5;a{}}")}
 	m["bad-index"] = [][]byte{[]byte("r5;"), []byte("o3{}"), []byte("a1{r9;}"), []byte("r-1;"), []byte("o-1{}"), []byte("a2{uar0;}"), []byte("c1\"A\"1{ua}o1{1}"), []byte("r0;"),
 		[]byte("a1{r0;}"), []byte("m1{r0;1}"), []byte("a2{s2\"ab\"r9999999999;}")}
 	m["negative-length"] = [][]byte{[]byte("b-5\"\""), []byte("s-1\"\""), []byte("a-1{}"), []byte("m-1{}"), []byte("c-1\"\"0{}"), []byte("s-2\"ab\"")}
@@ -289,6 +322,11 @@ func runC04(a Args) tr.Summary {
 		}
 		if mut == "deep-nesting" {
 			dests = []string{"iface", "node"}
+		} else if mut == "unhashable-key" {
+			dests = []string{"iface", "iface+opts", "map_iface_int", "map_iface_int+opts", "map_iface_iface", "map_iface_iface+opts", "map_string_int", "node"}
+			if entries[0] == "unmarshal" {
+				entries = []string{"unmarshal", "reader"}
+			}
 		} else if mut != "truncate" && mut != "substitute" && mut != "insert" && mut != "delete" {
 			dests = []string{"iface", "int", "string", "slice_int", "map_string_int", "plain", "node", "bytes"}
 			if entries[0] == "unmarshal" {
